@@ -54,6 +54,7 @@ type Runner struct {
 	keep     []interface{} // keeps listener objects alive
 	gcEvery  int
 	opsSeen  int
+	jsonSeen int // JSON documents written so far: selects the textual form (compact / indented / padded)
 	// statistics for evidence
 	opCount    map[string]int
 	panicCount map[string]int
@@ -656,7 +657,7 @@ func (r *Runner) exec(cmd string, t *toks) string {
 		e := r.ent(t, re)
 		t.end()
 		r.check(re)
-		data, err := json.Marshal(e)
+		data, err := r.jsonText(e)
 		if err != nil {
 			return r.ok("error")
 		}
@@ -918,7 +919,7 @@ func (r *Runner) exec(cmd string, t *toks) string {
 		}
 		if viaJSON {
 			// the dump as an application would persist it: through encoding/json and back
-			b, err := json.Marshal(&r.dumps[k])
+			b, err := r.jsonText(&r.dumps[k])
 			if err != nil {
 				return r.ok("json-error " + err.Error())
 			}
@@ -1019,6 +1020,38 @@ func (r *Runner) exec(cmd string, t *toks) string {
 	panic(badOp{})
 }
 
+// jsonText serialises v as an application or another tool might: compact, indented, or with
+// insignificant whitespace around every token (all three are the same JSON document).
+func (r *Runner) jsonText(v interface{}) ([]byte, error) {
+	r.jsonSeen++
+	switch r.jsonSeen % 3 {
+	case 1:
+		return json.Marshal(v)
+	case 2:
+		return json.MarshalIndent(v, "", "  ")
+	}
+	b, err := json.Marshal(v)
+	if err != nil {
+		return nil, err
+	}
+	out := []byte{}
+	inStr := false
+	ws := []string{" ", "\n", "\t", " \r\n "}
+	for i, c := range b {
+		if c == '"' && (i == 0 || b[i-1] != '\\') {
+			inStr = !inStr
+		}
+		if !inStr && strings.ContainsRune("[]{},:", rune(c)) {
+			out = append(out, ws[i%len(ws)]...)
+			out = append(out, c)
+			out = append(out, ws[(i+1)%len(ws)]...)
+			continue
+		}
+		out = append(out, c)
+	}
+	return out, nil
+}
+
 func b01(b bool) string {
 	if b {
 		return "1"
@@ -1031,6 +1064,7 @@ func NewRunnerKeep(old *Runner) *Runner {
 	n := NewRunner()
 	n.gcEvery = old.gcEvery
 	n.opsSeen = old.opsSeen
+	n.jsonSeen = old.jsonSeen
 	n.opCount = old.opCount
 	n.panicCount = old.panicCount
 	return n
